@@ -680,10 +680,13 @@ def oracle_globals(cmd, lv):
     the entries agree (same source, same raw values).  Uses only the command definition and the result."""
     node = cmd
     nodes = [cmd]
-    for ents, sub in lv[:-1]:
+    for k, (ents, sub) in enumerate(lv[:-1]):
         nx = [s for s in node["subs"] if s["name"] == sub]
-        if not nx:
-            break           # external subcommand: the chain of definitions ends here
+        if not nx or any(e["id"] == b"" for e in lv[k + 1][0]):
+            # external subcommand: the chain of definitions ends here.  (Id::EXTERNAL among the entries of the next level:
+            # the word was taken as an EXTERNAL subcommand although a subcommand of that name exists — it could not be
+            # dispatched, e.g. args_conflicts_with_subcommands after an argument; that command was never entered.)
+            break
         node = nx[0]
         nodes.append(node)
     seen = set()
@@ -917,8 +920,44 @@ def wide_resolve(node, infer, tok):
     return None, True
 
 
+def wide_family(cmd, depth=0):
+    """exactly the definitions `wide_tree` produces (the shrinker removes parts of a definition: no verdict then)"""
+    if cmd.get("groups") or cmd.get("ext") or cmd.get("ext_items") or cmd.get("short_flag") or cmd.get("long_flag") \
+            or cmd.get("short_flag_aliases") or cmd.get("long_flag_aliases"):
+        return False
+    if set(cmd["settings"]) - ({"infer_subcommands", "subcommand_precedence_over_arg"} if depth == 0
+                               else {"subcommand_precedence_over_arg"}):
+        return False
+    named = [a for a in cmd["args"] if not is_pos(a)]
+    want = 2 if depth == 0 else 1
+    if len(named) != want:
+        return False
+    for a in named:
+        keys = {k for k, v in a.items() if v and k != "id"}
+        if a["id"] == b"g" and depth == 0:
+            if keys != {"flags", "short", "long", "action", "default"} or a["flags"] != {"global"} or a["short"] != "g" \
+                    or a["long"] != b"cfg" or a["action"] != "set" or a["default"] != [b"d"]:
+                return False
+        elif keys != {"short", "action"} or a["short"] != "v" or a["action"] != "settrue":
+            return False
+    seen_multi = False
+    for a in cmd["args"]:
+        if not is_pos(a):
+            continue
+        keys = {k for k, v in a.items() if v and k != "id"}
+        if seen_multi:
+            return False
+        if keys == {"action", "num"} and a["action"] == "append" and tuple(a["num"]) == (1, None):
+            seen_multi = True
+        elif keys:
+            return False
+    return all(wide_family(s, depth + 1) for s in cmd["subs"])
+
+
 def wide_read(cmd, argv):
     """-> dict(chain=[names], levels=[dict(node, pos={id: [values]}, g=value or None)]) or None"""
+    if not wide_family(cmd):
+        return None
     infer = "infer_subcommands" in cmd["settings"]
     node = cmd
     out = {"chain": [], "levels": []}
@@ -948,8 +987,8 @@ def wide_read(cmd, argv):
                     if i + 1 >= len(argv) or lvl["g"] is not None:
                         return None
                     v = argv[i + 1]
-                    if v.startswith(b"-") or wide_resolve(node, infer, v) != (None, True):
-                        return None           # a value that could be read as a subcommand: no verdict
+                    if v.startswith(b"-") or v == b"" or not _utf8(v) or wide_resolve(node, infer, v) != (None, True):
+                        return None           # a value that could be read as a subcommand / is rejected: no verdict
                     lvl["g"] = v
                     i += 2
                     continue
